@@ -91,8 +91,10 @@ NOT_JUMPS = {"adr", "adrp", "ldr", "ldrsw", "prfm", "lea", "mov"}
 
 
 def is_jump(n):
-    if n["t"] == "jump":
+    if n["t"] == "jump" or "annu" in n:
         return True
+    if n["t"] == "inst" and n.get("i") in ("jmp", "br"):
+        return True          # indirect jump without annotation (no label operand)
     ops = n.get("ops", [])
     return n["t"] == "inst" and bool(ops) and ops[-1]["k"] == "l" and n.get("i") not in NOT_JUMPS
 
@@ -230,8 +232,10 @@ def translate(rec, want_debug=False):
 
     def jump_targets(n, labels):
         ops = n.get("ops", [])
-        if "ann" in n:
-            return [labels[l] for l in n["ann"] if l in labels], True
+        if "ann" in n or "annu" in n:
+            # annu = real targets of an UN-annotated indirect jump, told by the program generator (the Compiler assumes
+            # "any targetable block"; exploring the real successors only is sound)
+            return [labels[l] for l in n.get("ann", n.get("annu")) if l in labels], True
         if ops and ops[-1]["k"] == "l":
             l = ops[-1]["id"]
             if l not in labels:
@@ -597,8 +601,8 @@ def translate(rec, want_debug=False):
                 emit(ai, ["I", reads, clob, pclob, writes, kills(bi)])
                 # edge kills: liveness of the ORIGINAL target (a trampoline label inherits the original edge)
                 tl = []
-                if "ann" in bn:
-                    borig = [blabels[l] for l in bn["ann"] if l in blabels]
+                if "ann" in bn or "annu" in bn:
+                    borig = [blabels[l] for l in bn.get("ann", bn.get("annu")) if l in blabels]
                     for ta, tb in zip(tg, borig):
                         tl.append([ta, edge_kill(bi, tb)])
                 else:
